@@ -489,6 +489,7 @@ type Node struct {
 	Encap    [][]string `json:"encap,omitempty"`
 	Wrap     int        `json:"wrap,omitempty"`
 	OptForm  int        `json:"optform,omitempty"`  // how the Boolean options are brought to their state: 0 Set(true); 1 toggle; 2 Set(false)+toggle; 3 Set(true)+toggle+toggle; 4 Set(opposite)+toggle
+	UmFail   bool       `json:"umfail,omitempty"`   // an unmarshal closure that FAILS (returns an error) on this node
 	PresPol  bool       `json:"prespol,omitempty"`  // a presentation closure (non-BASIC stacks, Conditions): changes String() only
 	ValidRej bool       `json:"validrej,omitempty"` // a validity closure that REJECTS the node (stacks and Conditions), installed after assembly
 	EqPol    int        `json:"eqpol,omitempty"`    // equality closure on this node: 1 accepts everything, 2 rejects everything (stacks and Conditions)
@@ -679,6 +680,8 @@ const (
 	AmbAll = 1<<iota - 1
 )
 
+var errUnmarshalFails = fmt.Errorf("the node's unmarshal closure fails")
+
 var errValidityRejects = fmt.Errorf("the node's validity closure rejects")
 
 var errAmbient = fmt.Errorf("ambient error recorded earlier")
@@ -813,6 +816,9 @@ func buildStack(n Node, o BuildOpts) stackage.Stack {
 	if n.PresPol && n.Kind != "BASIC" {
 		s.SetPresentationPolicy(func(...any) string { return "<presented>" })
 	}
+	if n.UmFail {
+		s.SetUnmarshaler(func(...any) ([]any, error) { return []any{"partial"}, errUnmarshalFails })
+	}
 	if n.ReadOnly {
 		s.SetReadOnly(true)
 	}
@@ -845,6 +851,9 @@ func buildCond(n Node, o BuildOpts) stackage.Condition {
 	}
 	if n.PresPol {
 		c.SetPresentationPolicy(func(...any) string { return "<presented>" })
+	}
+	if n.UmFail {
+		c.SetUnmarshaler(func(...any) ([]any, error) { return []any{"partial"}, errUnmarshalFails })
 	}
 	if n.ReadOnly {
 		c.SetReadOnly(true)
